@@ -46,6 +46,11 @@ def gen_case(rng):
             continue
         seen.add(label(k))
         keys.append(k)
+    c.dup = False
+    if len(keys) >= 2 and rng.random() < 0.08:
+        # the same key written twice: the listing shows both lines, a lookup returns the first, an update changes the one a lookup returns
+        keys.insert(rng.randint(1, len(keys)), rng.choice(keys[:max(1, len(keys) - 1)]))
+        c.dup = True
     wn = [100]
 
     def w():
@@ -111,7 +116,9 @@ def gen_case(rng):
         c.src = c.block_bytes
         c.sep = b''
     c.keys = [label(k) for k, _ in entries]
-    c.values = {label(k): norm_value(ls) for k, ls in entries}
+    c.values = {}
+    for k, ls in entries:
+        c.values.setdefault(label(k), norm_value(ls))
     return c
 
 
